@@ -275,36 +275,54 @@ func buildTable(rows []Row, subjOK func(string) bool) (Table, []Row, []string) {
 	t := Table{}
 	var special []Row
 	var problems []string
+	// what each single input bit already yields through rows (of this accumulator) that fire on that bit alone
+	singleOut := map[uint64]uint64{}
+	for _, r := range rows {
+		if r.Kind != "or" {
+			continue
+		}
+		for _, c := range r.Cond {
+			if len(c) == 1 {
+				for _, l := range c {
+					if !l.Neg && (l.A.Kind == AkBit || l.A.Kind == AkAny || l.A.Kind == AkAll && popcount(l.A.Bits) == 1) {
+						for b := uint64(1); b != 0 && b <= l.A.Bits; b <<= 1 {
+							if l.A.Bits&b != 0 {
+								singleOut[b] |= r.K
+							}
+						}
+					}
+				}
+			}
+		}
+	}
 	for _, r := range rows {
 		if r.Kind != "or" {
 			special = append(special, r)
 			continue
 		}
-		// A conjunct that requires several bits at once (m&K == K, multi-bit K) is redundant when the same row
-		// also fires on one of those bits alone (all(K) => bit(k)); drop such conjuncts before reading the guard.
-		var single uint64
-		for _, c := range r.Cond {
-			if len(c) == 1 {
-				for _, l := range c {
-					if !l.Neg && (l.A.Kind == AkBit || l.A.Kind == AkAny) {
-						single |= l.A.Bits
-					}
-				}
-			}
-		}
+		// A conjunct that requires several bits at once (m&K == K, multi-bit K) is redundant when one of those bits
+		// alone already yields this row's output, in this row or in another one (all(K) => bit(k)); drop such
+		// conjuncts before reading the guard.
 		var cond DNF
 		for _, c := range r.Cond {
 			redundant := false
 			if len(c) == 1 {
 				for _, l := range c {
-					if !l.Neg && l.A.Kind == AkAll && l.A.Bits&single != 0 {
-						redundant = true
+					if !l.Neg && l.A.Kind == AkAll && popcount(l.A.Bits) > 1 {
+						for b := uint64(1); b != 0 && b <= l.A.Bits; b <<= 1 {
+							if l.A.Bits&b != 0 && singleOut[b]&r.K == r.K {
+								redundant = true
+							}
+						}
 					}
 				}
 			}
 			if !redundant {
 				cond = append(cond, c)
 			}
+		}
+		if len(cond) == 0 && len(r.Cond) > 0 {
+			continue // the whole row is redundant
 		}
 		_, bits, prob := guardBits(cond, subjOK)
 		if prob != "" {
